@@ -46,6 +46,11 @@ def generate(tier, rng):
             else:
                 fr.append(gens.echo4(s, d, mac_dst=cfg.mac))
                 fr.append(gens.arp_req(d, spa=s, sha=bytes(rng.randrange(256) for _ in range(6))))
+                # the announced hardware address differs from the frame's Ethernet source (proxy / relayed ARP)
+                fr.append(gens.arp_req(d, spa=s, sha=bytes(rng.randrange(256) for _ in range(6)),
+                                       eth_src=bytes(rng.randrange(256) for _ in range(6))))
+                fr.append(gens.arp_req(d, spa=s, sha=bytes(rng.randrange(256) for _ in range(6)),
+                                       eth_src=bytes(rng.randrange(256) for _ in range(6)), mac_dst=cfg.mac))
         yield Script(cfg, fr, "all-reply-kinds")
 
 
